@@ -296,6 +296,10 @@ def limit_guards():
             for anc in flow.enclosing(pm, node, (ast.If,)):
                 if any(node is x for x in ast.walk(anc.test)):
                     last = anc.body[-1] if anc.body else None
+                    # `if <limit set>: if <measure> > <limit>: ...; raise` is the same guard as
+                    # `if <limit set> and <measure> > <limit>: ...; raise`
+                    while isinstance(last, ast.If) and not last.orelse and not anc.orelse and len(anc.body) == 1 and last.body:
+                        anc, last = last, last.body[-1]
                     if isinstance(last, ast.Raise) and last.exc is not None:
                         cls = flow.dotted(last.exc.func) if isinstance(last.exc, ast.Call) else flow.dotted(last.exc)
                         ok = "ResourceLimitError" in exc.get(cls, []) and not anc.orelse
